@@ -1,8 +1,3 @@
 #!/bin/sh
-# tools/try_seed.sh <patch.diff> <Cxx> [more Cxx...] : apply a seeded change to /repo, run the checks, restore /repo
-P="$1"; shift
-cd /repo || exit 2
-git diff --quiet || { echo "/repo is dirty"; exit 2; }
-git apply "$P" || { echo "patch does not apply"; exit 2; }
-for c in "$@"; do (cd /verif && ./check "$c" quick --no-evidence 2>&1 | grep -E "VIOLATION|rule R|ANALYSIS|^\[" | head -8); done
-git checkout -- . 
+# tools/try_seed.sh <patch.diff> <Cxx> [more Cxx...] : run checks against a seeded change applied to a scratch copy of /repo/src (never /repo itself)
+exec /verif/tools/try_patch.py "$@"
